@@ -1,10 +1,10 @@
 package main
 
 import (
-	"strings"
 	"fmt"
 	"go/ast"
 	"go/token"
+	"strings"
 
 	"golang.org/x/tools/go/cfg"
 )
@@ -12,11 +12,11 @@ import (
 // chanTypestate: for a channel field closed by its owner under a lock and announced by a flag, every send
 // on the channel happens with the lock held and after the flag was seen unset *since the lock was last acquired*.
 type chanSpec struct {
-	Pkg, Type       string
-	ChanField       string // symbol of the channel field
-	LockPath        string // e.g. "bq.queueLock"
-	FlagLoad        string // symbol mentioned by the check (the flag field)
-	FlagField       string
+	Pkg, Type string
+	ChanField string // symbol of the channel field
+	LockPath  string // e.g. "bq.queueLock"
+	FlagLoad  string // symbol mentioned by the check (the flag field)
+	FlagField string
 }
 
 type chanClient struct {
